@@ -88,6 +88,7 @@ fn main() {
     "state_metadata" => iota::state_metadata(&cex),
     "iota_did" => iota::iota_did(&cex),
     "did_syntax" => did::syntax(&cex),
+    "did_probe" => did::probe(&cex),
     "credential_validation" => cred::credential_validation(&cex),
     "presentation_validation" => cred::presentation_validation(&cex),
     "claims" => cred::claims(&cex),
